@@ -254,7 +254,8 @@ def gen(tier, rng):
     for r in ('', '.words', '.boxed_slice'):
         add(Case('boxed.from_vec' + r, [[]], mop='boxed.from_vec'))
     for r in ('boxed_from_words', 'boxed_from_slice', 'boxed_as_words', 'boxed_as_limbs', 'boxed_to_limbs', 'boxed_into_limbs', 'boxed_as_mut'):
-        add(Case('uint.words_id.' + r, [[]], mop='uint.words_id'))       # a BoxedUint without limbs
+        # every constructor pads an empty limb sequence to one zero limb (zero-limb values are no longer constructible)
+        add(Case('uint.words_id.' + r, [[]], mop='boxed.from_vec'))
 
     # ------------------------------------------------------------------ primitives
     def prim_values(kind):
